@@ -1,0 +1,103 @@
+//go:build verif
+
+// Contracts for the command engine, read by /verif/govc. Ghost state and the assumed contracts of the
+// store, locker and bus interfaces are in /verif/contracts/extern/command.contracts.
+// This file contains comments only; it is compiled only with -tags verif.
+
+package command
+
+// ---- reservations (sync.Map behind; the contract is the protocol the callers rely on)
+//@ func (*command.Referencer).take
+//@   update taken = ite(err == nil, add(taken, refKey(ref, key)), taken)
+//@   update held = ite(err == nil, add(held, refKey(ref, key)), held)
+//@   ensures err == nil ==> !old(held[refKey(ref, key)])
+//@   modifies ghost taken, ghost held
+//@   trusted sync.Map.LoadOrStore is atomic: take succeeds iff no other request holds the key
+//@ func (*command.Referencer).release
+//@   update held = remove(held, refKey(ref, key))
+//@   modifies ghost held
+//@   trusted sync.Map.Delete
+
+// ---- chaining (sequential contracts; atomicity across the two critical sections is C05's protocol obligation)
+//@ func (*command.Commander).chainLog
+//@   requires log != nil && (commander.lastLog != nil ==> commander.lastLog.ID != nil)
+//@   ensures ret != nil && commander.lastLog == ret && ret.Log == deref(log) && ret.ID != nil
+//@   ensures old(commander.lastLog) == nil ==> val(ret.ID) == 0
+//@   ensures old(commander.lastLog) != nil && old(commander.lastLog.ID) != nil ==> val(ret.ID) == val(old(commander.lastLog.ID)) + 1
+//@   modifies Commander.lastLog, ledger.ChainedLog.Hash
+//@   property C05
+//@ func (*command.Commander).nextTXID
+//@   requires commander.lastTXID != nil
+//@   ensures ret != nil && val(ret) == val(old(commander.lastTXID)) + 1
+//@   ensures preview ==> commander.lastTXID == old(commander.lastTXID)
+//@   ensures !preview ==> commander.lastTXID == ret
+//@   modifies Commander.lastTXID
+//@   property C05 C14
+
+// ---- appending a log: dry run touches nothing; otherwise the log is chained, enqueued once, and the
+// returned channel acknowledges exactly that log
+//@ func (*command.executionContext).AppendLog
+//@   inline
+//@   requires log != nil && log.IdempotencyKey == e.parameters.IdempotencyKey        // C07: every kind of write carries the key of its request
+//@   update logOf = put(logOf, ret1, ret0)
+//@   update ackable = ite(e.parameters.DryRun, ackable, add(ackable, ret1))
+//@   update curLogFresh = true
+//@ func (*command.executionContext).run
+//@   inline
+//@   update curLog = ite(err == nil, ret0, curLog)
+// a request starts with nothing reserved and no lock
+//@ def idle() = !lockTaken && !curLogFresh && (forall k0 string :: !taken[k0])
+// type invariant of the commander: the head of the chain has an id
+//@ def headOK(c) = c.lastLog != nil ==> c.lastLog.ID != nil
+
+//@ func (*batching.Batcher[T]).Append
+//@   update enqueued = enqueued + 1
+//@   modifies ghost enqueued
+//@   trusted the batching layer: its contract with the store is C06's batcher/job obligations
+
+// ---- the commands
+// what exec needs from the function that turns the new transaction into a log: a fresh log without key
+//@ spec LogComputer(tx, accountMetadata)
+//@   ensures ret != nil && ret.IdempotencyKey == ""
+//@   modifies ledger.Log.*
+
+//@ func (*command.Commander).exec
+//@   inline
+//@   requires commander != nil && commander.lastTXID != nil
+//@   requires (lockTaken ==> lockHeld) && !curLogFresh && (forall k string :: taken[k] ==> held[k]) && headOK(commander)
+//@   requires implements(logComputer, LogComputer)
+//@   ensures err == nil && !parameters.DryRun ==> persisted[ret0]                                           // C06: acknowledged means persisted
+//@   ensures err != nil ==> enqueued == old(enqueued)                                                        // C06: rejected means no trace
+//@   ensures err == nil && !parameters.DryRun ==> enqueued <= old(enqueued) + 1
+//@   ensures parameters.DryRun ==> enqueued == old(enqueued) && commander.lastLog == old(commander.lastLog)   // C14
+//@   ensures parameters.DryRun ==> commander.lastTXID == old(commander.lastTXID)                              // C14: no consumed transaction id
+//@   property C06 C07 C11 C14 C02
+
+//@ func (*command.Commander).CreateTransaction
+//@   requires commander != nil && commander.lastTXID != nil && idle() && headOK(commander)
+//@   ensures parameters.DryRun ==> published == old(published) && enqueued == old(enqueued) && commander.lastLog == old(commander.lastLog) && commander.lastTXID == old(commander.lastTXID)
+//@   ensures err != nil ==> published == old(published) && enqueued == old(enqueued)
+//@   ensures err == nil && !parameters.DryRun ==> published == old(published) + 1
+//@   property C14 C16 C06 C07
+
+//@ func (*command.Commander).RevertTransaction
+//@   requires commander != nil && commander.lastTXID != nil && idle() && headOK(commander)
+//@   ensures parameters.DryRun ==> published == old(published) && enqueued == old(enqueued) && commander.lastLog == old(commander.lastLog) && commander.lastTXID == old(commander.lastTXID)
+//@   ensures err != nil ==> published == old(published) && enqueued == old(enqueued)
+//@   ensures err == nil && !parameters.DryRun ==> published == old(published) + 1
+//@   ensures forall k string :: held[k] == old(held[k])                          // every reservation is released on every path
+//@   property C14 C16 C06 C07 C10
+
+//@ func (*command.Commander).SaveMeta
+//@   requires commander != nil && idle() && headOK(commander)
+//@   ensures parameters.DryRun ==> published == old(published) && enqueued == old(enqueued) && commander.lastLog == old(commander.lastLog) && commander.lastTXID == old(commander.lastTXID)
+//@   ensures err != nil ==> published == old(published) && enqueued == old(enqueued)
+//@   ensures err == nil && !parameters.DryRun ==> published == old(published) + 1
+//@   property C14 C16 C06 C07
+
+//@ func (*command.Commander).DeleteMetadata
+//@   requires commander != nil && idle() && headOK(commander)
+//@   ensures parameters.DryRun ==> published == old(published) && enqueued == old(enqueued) && commander.lastLog == old(commander.lastLog) && commander.lastTXID == old(commander.lastTXID)
+//@   ensures err != nil ==> published == old(published) && enqueued == old(enqueued)
+//@   ensures err == nil && !parameters.DryRun ==> published == old(published) + 1
+//@   property C14 C16 C06 C07
